@@ -4,6 +4,7 @@
 // ordered binary tree (no balancing: balance is not observable through find/insert/erase/iterate).
 #include <string>
 #include <map>
+#include <list>
 
 template class std::__cxx11::basic_string<char>;
 
@@ -83,5 +84,22 @@ _Rb_tree_node_base *_Rb_tree_rebalance_for_erase(_Rb_tree_node_base *const z, _R
 	if (rightmost == z) rightmost = root ? vf_max(root) : &header;
 	if (root) { /* keep colours irrelevant but consistent */ root->_M_color = _S_black; }
 	return z;
+}
+
+namespace __detail {
+void _List_node_base::_M_hook(_List_node_base *const position) noexcept
+{
+	this->_M_next = position;
+	this->_M_prev = position->_M_prev;
+	position->_M_prev->_M_next = this;
+	position->_M_prev = this;
+}
+void _List_node_base::_M_unhook() noexcept
+{
+	_List_node_base *const next_node = this->_M_next;
+	_List_node_base *const prev_node = this->_M_prev;
+	prev_node->_M_next = next_node;
+	next_node->_M_prev = prev_node;
+}
 }
 }
